@@ -2,11 +2,16 @@
 package cw
 
 import (
+	"io"
 	"math/rand"
 	"time"
 
+	"github.com/biogo/hts/bam"
+	"github.com/biogo/hts/sam"
+
 	"github.com/biogo/hts/bgzf"
 
+	"verif/harness/bamx"
 	"verif/harness/bgz"
 	"verif/harness/tr"
 	"verif/harness/watch"
@@ -247,6 +252,51 @@ func RunRB(out, out2, mode string) {
 				for _, level := range []int{0, 1, -1} {
 					run(bgz.WScenario{Class: "hdrsize", Script: full, WC: 1, Level: level, Hdr: &bgz.Header{OS: 0xff, Extra: ex}, Seed: seed})
 				}
+			}
+		}
+	}
+	if mode == "bam" {
+		// the BAM writer as a BGZF script: NewWriter = Write(header) Flush Wait, Write(rec), Close
+		nb := 40
+		if tr.Tier() == "thorough" {
+			nb = 800
+		}
+		for i := 0; i < nb; i++ {
+			h := bamx.Header(1 + r.Intn(3))
+			var recs []*sam.Record
+			nrec := []int{0, 1, 3, 12, 40}[r.Intn(5)]
+			pos := 0
+			for k := 0; k < nrec; k++ {
+				size := []int{40, 200, 4000, 30000, 65000, 70000}[r.Intn(6)] + r.Intn(30)
+				pos += r.Intn(1000)
+				recs = append(recs, bamx.Record(h, k, 0, pos, size))
+			}
+			dry, err := bamx.Build(h, recs, 1, -1)
+			if err != nil {
+				panic(err)
+			}
+			lay := bamx.Parse(dry)
+			if !lay.OK || len(lay.Recs) != len(recs) {
+				panic("bam dry run layout")
+			}
+			sizes := []int{int(lay.HdrLen)}
+			for _, rr := range lay.Recs {
+				sizes = append(sizes, int(rr[1]-rr[0]))
+			}
+			wc := []int{1, 2, 4}[i%3]
+			var bw *bam.Writer
+			eng := bgz.BAMEngine{
+				New: func(w io.Writer, wc int) error {
+					var e error
+					bw, e = bam.NewWriter(w, h, wc)
+					return e
+				},
+				Write: func(k int) error { return bw.Write(recs[k]) },
+				Close: func() error { return bw.Close() },
+			}
+			ran++
+			if !bgz.RunBAMWriter(t, "bam", eng, lay.Flat, sizes, wc, i%2 == 0, r.Uint64()) {
+				aborted++
 			}
 		}
 	}
